@@ -61,6 +61,17 @@ def isCand (s : Str) (i j : Nat) : Bool := (s.cnd.getD i []).contains j
 def isEmptyRow (s : Str) (i : Nat) : Bool := (colsIn s i).isEmpty
 def headColIn (s : Str) (i : Nat) : Option Nat := (colsIn s i).head?
 
+/-- strictly increasing -/
+def incrB : List Nat → Bool
+  | [] => true
+  | a :: l => l.all (fun b => a < b) && incrB l
+
+/-- decidable well-formedness: every row's columns strictly increasing (CSC iteration order), candidate
+columns are entries of their row.  Checked by the driver for every structure it receives. -/
+def Str.wfB (s : Str) : Bool :=
+  (List.range (max s.ent.size s.cnd.size)).all (fun i =>
+    incrB (s.ent.getD i []) && (s.cnd.getD i []).all (fun j => (s.ent.getD i []).contains j))
+
 /-- `cmp_rows(i1,i2) != Greater` -/
 def leRows (s : Str) (i1 i2 : Nat) : Bool :=
   let w1 := s.rowW.getD i1 0; let w2 := s.rowW.getD i2 0
